@@ -5,7 +5,7 @@ WT=/tmp/try_$NAME
 git -C /repo worktree remove --force $WT 2>/dev/null
 git -C /repo worktree add --detach $WT -q || exit 2
 git -C $WT apply /verif/seeded/$NAME/patch.diff || { echo "patch does not apply"; git -C /repo worktree remove --force $WT; exit 2; }
-cd /verif && YV_REPO=$WT ./check $CHK --tier $TIER 2>&1 | grep -E "VIOLATION|KNOWN-FINDING|failed|broken" | head -5
+cd /verif && YV_REPO=$WT ./check $CHK --tier $TIER 2>&1 | grep -E "VIOLATION|failed|broken" | head -5
 echo "exit=$?"
 TAG=$(python3 -c "import hashlib;print(hashlib.sha1('$WT'.encode()).hexdigest()[:10])")
 ls /verif/.cache/alt/$TAG/replays/$CHK/ 2>/dev/null | head -3
